@@ -185,9 +185,15 @@ impl Prop for C09T {
         sc.n = if ns.is_empty() { *IFACES[iface].ns.last().unwrap() } else { ns[rng.below(ns.len().min(2))] };
         let bytes = render(&sc.msgs).0;
         sc.scheds.push(gen::sched(&mut rng, &bytes));
-        if rng.chance(1, 4) {
-            sc.set("restart", 1);
-            sc.set("fault_at", rng.below(12) as i64);
+        match rng.below(8) {
+            0 | 1 => {
+                sc.set("restart", 1);
+                sc.set("fault_at", rng.below(12) as i64);
+            }
+            // the same history handed to run in one buffer / one message per call
+            2 => sc.set("run_mode", 1),
+            3 => sc.set("run_mode", 2),
+            _ => {}
         }
         sc
     }
@@ -213,6 +219,14 @@ impl Prop for C09T {
             return Verdict::Skip("skip:empty-history");
         }
         let mut ex = process_exec(sc, bytes.clone(), 0);
+        match sc.knob("run_mode") {
+            Some(1) => ex.mode = simcore::exec::Mode::Run { sink: simcore::exec::Sink::Heapless4096, splits: vec![0, bytes.len()] },
+            Some(_) => ex.mode = simcore::exec::Mode::Run { sink: simcore::exec::Sink::Heapless4096, splits: bounds.clone() },
+            None => {}
+        }
+        if sc.knob("run_mode").is_some() {
+            st.bump("reach:history_through_run");
+        }
         if sc.flag("restart") {
             ex.fault_at = sc.knob("fault_at").map(|x| x as usize);
             ex.restart = true;
@@ -300,6 +314,6 @@ impl Prop for C09T {
         ]
     }
     fn probes(&self) -> Vec<&'static str> {
-        vec!["reach:queue_overflow", "reach:read_empty_queue", "reach:responses_judged", "reach:queue_survived_restart", "reach:direct_trait_calls", "fired:handler_error"]
+        vec!["reach:queue_overflow", "reach:history_through_run", "reach:read_empty_queue", "reach:responses_judged", "reach:queue_survived_restart", "reach:direct_trait_calls", "fired:handler_error"]
     }
 }
